@@ -846,7 +846,8 @@ def delete_unused_functions_and_classes(
             name_usages[name.id].add(node)
 
     constructors = collections.defaultdict(set)
-    for node in classdefs:
+    for node in core.walk(root, ast.ClassDef):
+        # Also for preserved classes, their magic methods are used whenever the class is used
         for child in filter(parsing.is_magic_method, node.body):
             constructors[node].add(child)
 
